@@ -76,12 +76,14 @@ def run(ctx):
     # bounded-exhaustive part: every small fragment against a slice of the small molecules
     per = ctx.n(5, 25)
     multiring = ['C1CCC2CC2C1', 'C1CC2CCC12', 'C1CC12CCCC2', 'C1CC2CC1CC2', 'C1CCC2(CC1)CC2', 'c1ccc2CCCc2c1', 'C1CC2CCCC2C1', 'C1CC2C1C2', 'C1CCCC1', 'C1CCCCC1']
-    charged = ['CC(=O)[O-]', '[OH-]', '[CH3-]', 'C[O-]', '[NH4+]', '[CH3+]', 'C[NH3+]', '[O-][N+](=O)C', 'C[N+](C)(C)C', 'CC']
+    charged = ['CC(=O)[O-]', '[OH-]', '[CH3-]', 'C[O-]', '[NH4+]', '[CH3+]', 'C[NH3+]', '[O-][N+](=O)C', 'C[N+](C)(C)C', 'CC',
+               # charged AND radical
+               'C[CH+]', 'C[C+]', 'C[NH2+]', 'C[O+]', 'C[CH-]', 'C[N-]', '[CH2+]', '[NH3+]', '[O-]']
     for t in frags:
         sm = rng.sample(mols, per)
         if 'ring' in t:
             sm += rng.sample(multiring, ctx.n(4, 10))     # atoms in several rings of different sizes
-        if t.startswith(('positive', 'negative', 'neutral')):
+        if t.startswith(('positive', 'negative', 'neutral')) or '+' in t or '- ' in t or '-.' in t:
             sm += charged
         jobs.append({'op': 'match', 'text': t, 'smiles': sm, 'graphs': True, 'timeout': 30})
     for mp, body in (('negative ', 'O- labeled a C labeled b single bond to a'), ('positive ', 'N+ labeled a'), ('neutral ', 'C labeled a'),
@@ -102,6 +104,10 @@ def run(ctx):
             jobs.append({'op': 'match', 'text': t2, 'smiles': sm, 'graphs': False, 'timeout': 30})
     hist['random_fragments'] = nrand
     hist['layout_label_variants'] = len(variants)
+    vset = set(x for ab in variants for x in ab)
+    for k, j in enumerate(jobs):
+        if k not in vset and k % 2 == 0:
+            j['respell'] = rng.getrandbits(30)
     res = vlib.run_impl_sharded('ring', jobs, timeout=2400)
     rows = []
     nmatch = 0
@@ -112,6 +118,7 @@ def run(ctx):
         if 'read_exc' in r:
             ctx.count(j['text'], nontrivial=False)
             continue
+        j['smiles'] = r.get('smiles', j['smiles'])        # with the respelled molecules the child appended
         for smi, x in zip(j['smiles'], r.get('results', [])):
             if x.get('bad_smiles'):
                 continue
